@@ -210,6 +210,19 @@ Proof. vm_compute. reflexivity. Qed.
 Example C16_garbage_closes :
   reply_to [71; 69; 84; 32; 47; 32; 72; 84; 84; 80] = ([0; 0; 0; 0; 0; 3; 0; 128; 0], Closed).
 Proof. vm_compute. reflexivity. Qed.
+(* frames whose MBAP length field exceeds the largest legal ADU (the classifier delimits any length):
+   an FC3 request with 249 bytes of padding covered by the length field 255 is parsed (the fixed-length
+   parsers ignore trailing bytes) and answered by the handler; an FC16 frame of 261 bytes whose byte
+   count 2 does not fill it is refused with the exception 03 addressed to it; the request pipelined
+   behind either is answered *)
+Example C16_oversize_frames :
+  let next := [0; 1; 0; 0; 0; 2; 1; 17] in
+  let next_reply := [0; 1; 0; 0; 0; 7; 1; 17; 2; 0x56; 0x46; 255; 1] in
+  reply_to ([0x12; 0x30; 0; 0; 0; 255; 1; 3; 0; 0x6B; 0; 3] ++ repeat 0 249 ++ next) =
+    ([0x12; 0x30; 0; 0; 0; 9; 1; 3; 6; 0x6B; 0x6C; 0x6D; 0x6E; 0x6F; 0x70] ++ next_reply, Open) /\
+  reply_to ([0x12; 0x30; 0; 0; 0; 255; 7; 16; 0; 1; 0; 1; 2] ++ repeat 0xAB 248 ++ next) =
+    ([0x12; 0x30; 0; 0; 0; 3; 7; 0x90; 3] ++ next_reply, Open).
+Proof. vm_compute. split; reflexivity. Qed.
 (* two connections: the panic on connection 0 leaves connection 1 exactly as if it were alone *)
 Example C16_isolation_example :
   let req := [0x12; 0x30; 0; 0; 0; 6; 1; 3; 0; 0x6B; 0; 3] in
